@@ -99,8 +99,6 @@ theorem cmpIdents_zero_ne_lt (i : Ident) (l : List Ident) : cmpIdents (i :: l) [
       simp [this]
   | alnum s => simp [cmpIdents, Ident.cmp]
 
-theorem natToBytes_zero : natToBytes 0 = [48] := by decide
-
 /-- `ordToInt` of an ordering, as sign facts (for `omega`). -/
 theorem ordToInt_cases (o : Ordering) :
     (o = .lt ∧ ordToInt o = -1) ∨ (o = .eq ∧ ordToInt o = 0) ∨ (o = .gt ∧ ordToInt o = 1) := by
